@@ -156,9 +156,14 @@ def classify_tv(ctx, res, shape_findings=True):
 
 
 def match_shape(ctx, p, v):
+    """shape findings: keyed by a predicate of spec/Shapes.tla (evaluated by TLC on the source tree and
+    reported with the mismatch) or, for generated programs, by generator tags"""
+    shapes = set((v or {}).get("shapes", []))
     tags = set(p.get("tags", []))
     for f in ctx.findings_for("shape"):
-        if set(f["tags"]) <= tags:
+        if f.get("shape") and f["shape"] in shapes:
+            return f
+        if f.get("tags") and set(f["tags"]) <= tags:
             return f
     return None
 
